@@ -27,6 +27,7 @@ RULE = (
     "nested scope whose suspended disposable enter is cancelled; "
     "non-trivial = some child runs in another task than its parent"
 )
+RULE += ' Rounds 10-11: 4-node trees with two task-placed nodes; stars with 4-9 (12) children and chains of 5-8 (10) scopes; nested scopes given an own trace id / logger.'
 ASSUMPTIONS = [
     "a scope nested under X counts for X's completion if it was created before X's callback fired "
     "(not if it was created after X was left, within the run of the loop in which X completed: the "
